@@ -276,6 +276,8 @@ theorem ctx_eq_doc_untyped (s : Schema) :
             rw [ih rest a (.single m) true r r' hum hr hr']
         | single m =>
           simp only at h1
+          split at h1
+          · simp at h1
           obtain ⟨r, hr, hq⟩ := map_ok _ _ _ h1
           subst hq
           have hum : UntypedV rest.length (.single m) := by
